@@ -30,7 +30,7 @@ static int c04_rl_elementAt(KSI_LIST(KSI_HashChainLink) *l, size_t pos, KSI_Hash
 		__CPROVER_assert(g_c04_rl.a_calls < g_c04_rl_len_a, "protocol: no fetch beyond chain A");
 		__CPROVER_assert(pos == g_c04_rl.a_calls, "protocol: chain A is read front to back, each link once");
 		if (fail != KSI_OK) { g_c04_rl.a_err = 1; g_c04_rl.err_status = fail; return fail; }
-		g_c04_rl_alink.isLeft = nondet_bool(); g_c04_rl_alink.imprint = C04_H(C04_H_LINK_A);
+		g_c04_rl_alink.isLeft = nondet_bool();          /* .imprint stays C04_H_LINK_A (set when the world is built) */
 		g_c04_hcls[C04_H_LINK_A] = nondet_uchar();
 		g_c04_rl.a_last_wanted = (g_c04_rl_alink.isLeft != 0) != g_c04_rl_want_right;
 		spec_rl_fetch_a(&g_c04_rl.rl, !g_c04_rl.a_last_wanted);
@@ -40,7 +40,7 @@ static int c04_rl_elementAt(KSI_LIST(KSI_HashChainLink) *l, size_t pos, KSI_Hash
 		__CPROVER_assert(g_c04_rl.b_calls < g_c04_rl_len_b, "protocol: no fetch beyond chain B");
 		__CPROVER_assert(pos == g_c04_rl.b_calls, "protocol: chain B is read front to back, each link once");
 		if (fail != KSI_OK) { g_c04_rl.b_err = 1; g_c04_rl.err_status = fail; return fail; }
-		g_c04_rl_blink.isLeft = nondet_bool(); g_c04_rl_blink.imprint = C04_H(C04_H_LINK_B);
+		g_c04_rl_blink.isLeft = nondet_bool();
 		g_c04_hcls[C04_H_LINK_B] = nondet_uchar();
 		g_c04_rl.b_last_wanted = (g_c04_rl_blink.isLeft != 0) != g_c04_rl_want_right;
 		spec_rl_fetch_b(&g_c04_rl.rl, !g_c04_rl.b_last_wanted);
